@@ -163,10 +163,21 @@ func runC11(c *Ctx) {
 		member = 0
 	}
 	inner := &c11core{w: w}
+	// one run in five: the hook (user code: a metrics client, say) panics when
+	// it is told of some of the drops; the caller recovers. The decision it was
+	// told is still the one that must have been applied.
+	hookPanics := g.Chance(5)
+	if hookPanics {
+		c.R.Probe("sampling hook panics on some drops")
+	}
 	hook := func(e zapcore.Entry, d zapcore.SamplingDecision) {
-		rec := &w.recs[c11id(e)]
+		id := c11id(e)
+		rec := &w.recs[id]
 		rec.hook++
 		rec.decision = d
+		if hookPanics && d&zapcore.LogDropped != 0 && id%3 == 0 {
+			panic("c11: the sampling hook panics")
+		}
 	}
 	viaLogger := g.Chance(4)
 	if viaLogger {
@@ -400,6 +411,9 @@ func runC11(c *Ctx) {
 	}
 
 	do := func(e *c11entry) {
+		if hookPanics {
+			defer func() { _ = recover() }()
+		}
 		core := sampler
 		if e.child {
 			core = child
